@@ -20,10 +20,15 @@
   Witnesses (`decide`): D1, F02-2BR, F02-BIGSUFFIX end to end through `cliFinal`.
    * repaired D19: `hostlist_filter_regex` (iterate + `hostlist_remove`) leaves exactly the hosts
      the filter keeps, and `wcoll_apply_regex` the hosts that pass every filter (order, multiplicity);
+   * COMPOSITION (`exclusion_correct`): with D1, D17, D19 repaired, for one-bracket target words and
+     small names, the words `wcoll_arg_process` sees lead to exactly
+     targets.filter (not excluded) |>.filter (passes every regex) — assembling, exclusion stack,
+     filter stack and `wcoll_expand` chained, record identities / iterators / bounds tracked through.
   NOT proved: the same for the UNCHANGED `hostlist_remove` (D19: the iterator revisits hosts; the
-  test is idempotent, covered by the correspondence runs), and the composition `cliFinal = spec`.
+  test is idempotent, covered by the correspondence runs); `^file` words and `-x`/`-w` option
+  splitting are outside the composition theorem (files: C10; splitting: `evWords` is executable).
 -/
-import PdshVerif.Opt.ExcludeFilter
+import PdshVerif.Opt.ExcludeCompose
 
 namespace PdshVerif.C02
 open PdshVerif.Hostlist PdshVerif.Opt PdshVerif.Opt.Exclude
@@ -88,6 +93,26 @@ theorem applyRegex_hosts (cfg : Cfg) (hfix : cfg.fixRemoveDepth = true) (env : E
   obtain ⟨e', h1, h2, _, h4, _, _⟩ := applyRegex_spec cfg hfix (·.PrintsFull cfg)
     (fun _ _ h hw hh hs => narrow_of_le h hw hh hs) (fun _ h => h) env rs e hid hg hf hits hm
   exact ⟨e', h1, h2, h4⟩
+
+/-! ### composition -/
+/-- EXCLUSION CORRECT.  `ws`: the comma words of the command line by meaning — target words
+    (`pre[ranges]suffix` or plain names), exclusion words (`-` + such a word), filters (`/re/`, and the
+    same behind a `-`) in ANY order.  With D1, D17, D19 repaired and inside `Domain` (word shapes; one-bracket
+    targets; exclusion entries parse, their names are small; the regex oracle answers for every
+    target; numbers below 10^15) the hosts pdsh goes on with are
+        targets.filter (· ∉ excluded) |>.filter (passes every filter)
+    with the targets in command-line order, multiplicities kept (`specWords`; `expand₁ = expand₂`
+    for one-bracket words, `expand₂_oneBracket`).  `cliFinal` is `cliWords` on the split options. -/
+theorem exclusion_correct (cfg : Cfg) (hD1 : cfg.fixDeleteAll = true) (hD17 : cfg.fixIterSuffix = true)
+    (hD19 : cfg.fixRemoveDepth = true) (env : Env) (ws : List CW) (hd : Domain cfg env ws) :
+    cliWords cfg env (ws.map CW.text) = .ok (specWords env ws) :=
+  cliWords_correct cfg hD1 hD17 hD19 env ws hd
+
+/-- the domain is inhabited: targets foo[1-3] and bar, foo2 excluded, names matching `3` dropped —
+    pdsh goes on with foo1 and bar, BY the theorem (`demo_domain` proves every hypothesis) -/
+theorem exclusion_correct_instance :
+    cliWords Cfg.repaired demoEnv (demoWords.map CW.text) = .ok ["foo1".toList, "bar".toList] :=
+  demo_correct
 
 /-! ### the buffer loop of `list_push_hostlist` (D2) -/
 /-- TERMINATION (repaired D2): the loop stops within 12 doublings whatever the length of the
